@@ -12,6 +12,7 @@ import (
 	"sort"
 	"strconv"
 	"strings"
+	"sync"
 )
 
 // The harness processes run thousands of synctest bubbles with many goroutines; under heavy machine load Go 1.25's heap
@@ -138,6 +139,8 @@ func Bool(b bool) string {
 // Str renders a Go string as a Coq term of type string, byte-exact. Inside a Run the literal is interned:
 // the case files define each distinct string once (Coq parses string literals slowly) and refer to it by name.
 func Str(s string) string {
+	internMu.Lock()
+	defer internMu.Unlock()
 	if interned != nil {
 		if id, ok := interned[s]; ok {
 			return id
@@ -151,6 +154,7 @@ func Str(s string) string {
 }
 
 var (
+	internMu    sync.Mutex // some engines render terms from several goroutines (c18 silconc)
 	interned    map[string]string
 	internOrder []string
 	internRef   = regexp.MustCompile(`s'(\d+)\b`)
